@@ -256,7 +256,7 @@ impl Property for C12 {
 
     fn cases(&self, tier: Tier) -> u64 {
         match tier {
-            Tier::Quick => 20_000,
+            Tier::Quick => 60_000,
             Tier::Thorough => 600_000,
         }
     }
